@@ -340,6 +340,35 @@ def run(chk):
                    'good': 'the condition is good(): a last line without newline sets eofbit and is dropped',
                    'other': 'the condition is not the success of the read'}.get(v, ''))
     chk.require(n5 >= 1, 'readArgumentFile: line loop not found')
+    # R6: words of a file / of the environment that belong to a sub-group are evaluated by the sub-group's own handler:
+    # it must see the read mode of the handler that dispatches to it (its own mReadMode decides whether a value
+    # counts against the cardinality, C03-R3) - otherwise such a value cannot be overridden from the command line
+    chk.rule('R6', 'the read mode reaches the sub-group handler that evaluates words of a file / environment source', 1)
+    pa = prog.one('celma::prog_args::Handler', 'processArg')
+    pcfg = pa.cfg
+    subcalls = [c for c in pa.calls() if callee_is(c, 'Handler::evalSingleArgument') and object_of(c) is not None and
+                strip_all_casts(object_of(c)).get('k') != 'CXXThisExpr']
+    chk.require(subcalls, 'processArg: dispatch to the sub-group handler not found')
+    for c in subcalls:
+        o = strip_all_casts(object_of(c))
+        var = o.get('ref', {}).get('name') if o.get('k') == 'DeclRefExpr' else None
+        hands = []
+        for x in pa.walk():
+            if x.get('k') == 'BinaryOperator' and x.get('op') == '=' and field_name(children(x)[0]) == 'mReadMode' and \
+                    var is not None and mentions_var(children(x)[0], var) and mentions_field(children(x)[1], 'mReadMode'):
+                hands.append(x)
+            elif x.get('k') == 'DeclStmt':
+                for d in x.get('decls', []):
+                    if isinstance(d.get('init'), dict) and var is not None and any(
+                            t in d.get('t', '') for t in ('ScopedValue', 'ScopedFlag')) and \
+                            mentions_var(d['init'], var) and len([y for y in walk(d['init']) if y.get('k') == 'MemberExpr'
+                                                                  and y.get('ref', {}).get('name') == 'mReadMode']) >= 2:
+                        hands.append(x)
+        ok = any(pcfg.node_dominates(h_, c) for h_ in hands)
+        chk.check(ok, 'R6', pa.name, 'the sub-group handler evaluates its words in the read mode of the dispatching '
+                  'handler', pa.loc(c), 'the sub-group handler keeps its own read mode (command line): a value it reads '
+                  'from a file / the environment counts against the cardinality and cannot be overridden from the '
+                  'command line ("too many values")')
     # R3: read-mode flags (C03-R3) and argv capacity (C04-R3)
     sub = type(chk)(chk.pid, chk.tier)
     sub._known = []
